@@ -137,6 +137,23 @@ static void string_outputs(const ST::string &s, const S &bytes)
     route<char32_t>("string.to_buffer(utf32)", m, true, e.e32, [&] { ST::utf32_buffer b; s.to_buffer(b); return b; });
     route<wchar_t>("string.to_buffer(wchar)", m, true, to_w(e.e32), [&] { ST::wchar_buffer b; s.to_buffer(b); return b; });
     route<char>("string.view", m, true, bytes, [&] { return S(s.view()); });
+    route<char>("string.view(1,n-1)", m, true, bytes.empty() ? bytes : bytes.substr(1), [&] { return bytes.empty() ? S(s.view()) : S(s.view(1)); });
+    route<char>("string.to_std_string(u8string&)", m, true, bytes, [&] { std::u8string r = u8"junk"; s.to_std_string(r); return r; });
+    route<char>("string.to_std_string(&,latin1,false)", m, e.okLs, e.eLs, [&] { S r = "junk"; s.to_std_string(r, false, false); return r; });
+    // deprecated overloads taking a validation mode: substitute_invalid means "substitute out-of-range characters"
+    route<char>("string.to_latin_1(substitute_invalid) [deprecated]", m, true, e.eL, [&] { return s.to_latin_1(ST::substitute_invalid); });
+    route<char>("string.to_latin_1(check_validity) [deprecated]", m, e.okLs, e.eLs, [&] { return s.to_latin_1(ST::check_validity); });
+    route<char>("string.to_std_string(false,substitute_invalid) [deprecated]", m, true, e.eL, [&] { return s.to_std_string(false, ST::substitute_invalid); });
+    route<char>("string.to_std_string(false,check_validity) [deprecated]", m, e.okLs, e.eLs, [&] { return s.to_std_string(false, ST::check_validity); });
+    route<char>("string.to_std_string(&,true,check_validity) [deprecated]", m, true, bytes, [&] { S r = "junk"; s.to_std_string(r, true, ST::check_validity); return r; });
+    route<char>("string.to_std_string(&,true,substitute_invalid) [deprecated]", m, true, bytes, [&] { S r = "junk"; s.to_std_string(r, true, ST::substitute_invalid); return r; });
+    route<char>("string.to_std_string(&,false,substitute_invalid) [deprecated]", m, true, e.eL, [&] { S r = "junk"; s.to_std_string(r, false, ST::substitute_invalid); return r; });
+    route<char>("string.to_std_string(&,false,check_validity) [deprecated]", m, e.okLs, e.eLs, [&] { S r = "junk"; s.to_std_string(r, false, ST::check_validity); return r; });
+    route<char>("string.to_std_string(true,assume_valid) [deprecated]", m, true, bytes, [&] { return s.to_std_string(true, ST::assume_valid); });
+    route<char>("string.to_buffer(char,false,substitute_invalid) [deprecated]", m, true, e.eL, [&] { ST::char_buffer b; s.to_buffer(b, false, ST::substitute_invalid); return b; });
+    route<char>("string.to_buffer(char,false,check_validity) [deprecated]", m, e.okLs, e.eLs, [&] { ST::char_buffer b; s.to_buffer(b, false, ST::check_validity); return b; });
+    route<char>("string.to_buffer(char,true,check_validity) [deprecated]", m, true, bytes, [&] { ST::char_buffer b; s.to_buffer(b, true, ST::check_validity); return b; });
+    route<char>("string.c_str/u8_str", m, true, bytes, [&] { return S(s.c_str(), s.size()) == S(reinterpret_cast<const char *>(s.u8_str()), s.size()) ? S(s.data(), s.size()) : S("c_str and u8_str differ"); });
 }
 
 // ---------------------------------------------------------------- UTF-8 source
@@ -263,6 +280,17 @@ static void from_utf8(const Input &in, bool full)
         route<char>("operator\"\"_stbuf(char8_t)", "n/a", true, b, [&] { return ST::literals::operator""_stbuf(p8, n); });
         vrt::Box<ST::string> st(ST::string::from_validated(p, n));
         string_outputs(*st, b);
+        // std::filesystem::path routes (text without NUL; a path is a C string underneath)
+        if (full && !bad && !ref::has_nonscalar(d) && b.find('\0') == S::npos) {
+            const std::filesystem::path pth(std::u8string(p8, n));
+            route<char>("string(path)", "n/a", true, b, [&] { return ST::string(pth); });
+            route<char>("string.set(path)", "n/a", true, b, [&] { ST::string s("old value that is long enough for the heap"); s.set(pth); return s; });
+            route<char>("string=path", "n/a", true, b, [&] { ST::string s("old"); s = pth; return s; });
+            route<char>("string::from_path", "n/a", true, b, [&] { return ST::string::from_path(pth); });
+            route<char>("string.to_path", "n/a", true, b, [&] { return st->to_path().u8string(); });
+            route<char>("string_stream<<path", "n/a", true, b, [&] { ST::string_stream ss; ss << pth; return S(ss.raw_buffer(), ss.size()); });
+            route<char>("format(path)", "n/a", true, b, [&] { return ST::format(ST::assume_valid, "{}", pth); });
+        }
     }
 }
 
